@@ -445,7 +445,7 @@ for s in range(4):
           "for THIS entry (orders n|0x40..1, checksum of this short name); otherwise short-name fallback - no partial or "
           "foreign long name, e.g. from a run that belonged to a deleted entry",
           "fixed root, 4 arbitrary slots, long-name orders restricted to 0..=3 (with/without 0x40), fixed-buffer build",
-          build="noalloc", timeout=2400, tier="quick" if s == 2 else "thorough"))
+          build="noalloc", timeout=2400, tier="quick" if s == 0 else "thorough"))
 
 for b_ in ("alloc", "noalloc"):
     add(H("dir::verif::lnb_twenty_slots_exact", ["C17", "C15", "C19", "C01"],
